@@ -174,6 +174,7 @@ type LemmaDecl struct {
 	Line      int
 }
 type GuardedBy struct {
+	WritesOnly       bool // reads are atomic and need no lock
 	Pkg, Type, Field string
 	Lock             string // field name of the lock in the same struct
 }
@@ -526,7 +527,12 @@ func (p *parser) parseDecl(cs *ContractSet) error {
 		if err != nil {
 			return err
 		}
-		cs.Guards = append(cs.Guards, GuardedBy{Pkg: p.pkg, Type: tn, Field: fn, Lock: lk})
+		g := GuardedBy{Pkg: p.pkg, Type: tn, Field: fn, Lock: lk}
+		if p.isKW("writes") {
+			p.next()
+			g.WritesOnly = true
+		}
+		cs.Guards = append(cs.Guards, g)
 		return nil
 	case "lemma":
 		name, err := p.ident()
